@@ -513,9 +513,24 @@ func (g *G) next() *History {
 	k := g.r.Intn(tot)
 	for _, c := range cs {
 		if k < c.w {
-			return c.f(g, id)
+			return g.emptyMethod(c.f(g, id))
 		}
 		k -= c.w
 	}
 	return g.genGrid(id)
+}
+
+// emptyMethod: net/http documents that a client request whose Method is the empty string is a GET. In one
+// history out of twenty some of the GETs are spelled that way (a request built as a struct literal): they are
+// GETs — served from the store, stored, never an invalidation.
+func (g *G) emptyMethod(h *History) *History {
+	if !g.chance(0.05) {
+		return h
+	}
+	for i := range h.Ops {
+		if h.Ops[i].Op == "req" && h.Ops[i].Method == "GET" && i > 0 && g.chance(0.5) {
+			h.Ops[i].Method = "(empty)"
+		}
+	}
+	return h
 }
